@@ -1,7 +1,7 @@
 (* C06 - Single-trunk orthogon recognition is sound and complete.
    Statements only; every proof is [exact <lemma>]. *)
 From FrameModel Require Import Num.QcTac Geometry.Rect Stog.CreateStog Stog.StogFacts Stog.StogPost
-  Stog.StogHist Cases.CmpC06.
+  Stog.StogHist Stog.StogModule Cases.CmpC06.
 From Coq Require Import Permutation.
 Open Scope list_scope.
 Open Scope Qc_scope.
@@ -137,3 +137,43 @@ Theorem C06_call_check_sound : forall eps aeps pre idxs b idxs' post,
     (b = false -> Forall (fun r => rloc r = NOPOLY) out).
 Proof. exact call_check_sound. Qed.
 Print Assumptions C06_call_check_sound.
+
+(* ---------------------------------------------------------------------------------------
+   Module histories (Stog/StogModule.v): the same histories issued through the Module API -
+   m.create_stog() / m.has_stog between changes of the module's rectangles by any route
+   (add_rectangle, clear_rectangles, the public list itself, Netlist.assign_rectangles,
+   recenter_rectangles, in-place moves and resizes of the rectangles, plain create_stog calls).
+   --------------------------------------------------------------------------------------- *)
+
+(* every recognition of every module history is create_stog on the current geometry of the
+   rectangles the module holds at that moment - whatever was answered before *)
+Theorem C06_mhist_steps_ok : forall eps aeps ops pool ml,
+  Forall (step_ok eps aeps) (run_mhist eps aeps pool ml ops).
+Proof. exact mhist_steps_ok. Qed.
+Print Assumptions C06_mhist_steps_ok.
+
+(* ... trunk first and every other rectangle with the side it abuts, or no role at all *)
+Theorem C06_mhist_roles : forall eps aeps ops pool ml,
+  Forall (step_roles eps aeps) (run_mhist eps aeps pool ml ops).
+Proof. exact mhist_roles. Qed.
+Print Assumptions C06_mhist_roles.
+
+(* m.has_stog right after a recognition is its answer *)
+Theorem C06_has_stog_after_call : forall eps aeps pool ml b ml' pool',
+  call eps aeps pool ml = Some (b, ml', pool') -> has_stog pool' ml' = b.
+Proof. exact has_stog_after_call. Qed.
+Print Assumptions C06_has_stog_after_call.
+
+(* the checker applied to an observed m.create_stog() *)
+Theorem C06_mcreate_check_sound : forall eps aeps pool ml b has idxs' post,
+  mcreate_check eps aeps pool ml b has idxs' post = true ->
+  has = b /\
+  exists rs out,
+    gather pool ml = Some rs /\ gather post idxs' = Some out /\
+    stog_decision eps aeps rs = Some b /\
+    Permutation (map geom rs) (map geom out) /\
+    (b = true -> exists t rest, out = t :: rest /\ rloc t = TRUNK /\
+       Forall (fun r => rloc r <> NOPOLY /\ rloc r <> TRUNK /\ abuts eps aeps (rloc r) t r) rest) /\
+    (b = false -> Forall (fun r => rloc r = NOPOLY) out).
+Proof. exact mcreate_check_sound. Qed.
+Print Assumptions C06_mcreate_check_sound.
